@@ -500,6 +500,7 @@ func runC10(c *run.Ctx) {
 	}
 	injected += c10Menagerie(c)
 	injected += c10Unbound(c)
+	injected += c10AfterFailedLoad(c)
 	c.MinNontriv = injected / 2
 	c.Set("defects_injected", injected)
 }
@@ -875,6 +876,91 @@ func c10Unbound(c *run.Ctx) int {
 		}
 		if diag != "" {
 			c.Violation("c10-introspection-container", map[string]interface{}{"backend": kind, "document": ic.text, "offender": ic.offender, "diag": diag, "observed": out.Describe()})
+		}
+	}
+	return done
+}
+
+// c10AfterFailedLoad: a field that only a FAILED schema load would have added is as undefined as any other. After the
+// schema is loaded, a later document extends a loaded type with a field and fails (an extension of an unknown type in the
+// same document, or a validation error); a request naming that field must get the undefined-field error and no resolver
+// may be invoked for it - under object, root and interface containers, all three strategies.
+func c10AfterFailedLoad(c *run.Ctx) int {
+	done := 0
+	n := c.N(45, 600)
+	for i := 0; i < n && !c.TooMany(); i++ {
+		r := c.Rand(780000 + i)
+		s := gen.Menagerie(r)
+		sdl := s.SDL(model.SDLOpts{})
+		g := gen.Graph(r, s, gen.GraphOpts{NullProb: 1, PerType: 2})
+		kind := []string{"iface", "any", "reflect"}[i%3]
+		h, err := back.Build(kind, s, sdl, g)
+		if err != nil {
+			c.Violation("c10-schema-rejected", map[string]interface{}{"sdl": sdl, "error": err.Error()})
+			continue
+		}
+		impl := s.PossibleTypes("Animal")[0]
+		cases := []struct{ ext, request, container string }{
+			{"extend type Query { zzGhost: Int }", `{ zzbad: zzGhost ant { name } }`, "root"},
+			{"extend type Ant { zzGhost: String }", `{ ant { name zzbad: zzGhost } }`, "object"},
+			{"extend type " + impl + " { zzGhost: Int }", `{ ` + strings.ToLower(impl) + ` { name zzbad: zzGhost } }`, "object"},
+			{"extend type " + impl + " { zzGhost: Int }", `{ pets { name ... on ` + impl + ` { zzbad: zzGhost } } }`, "interface"},
+			{"extend interface Animal { zzGhost: Int }", `{ pets { name zzbad: zzGhost } }`, "interface"},
+		}
+		cs := cases[(i/3)%len(cases)]
+		failing := cs.ext + "\n" + []string{"extend type NopeTypeZz { a: Int }", "type ZzBroken { a: NopeTypeZz }", "type ZzEmpty { }"}[r.Intn(3)]
+		var lerr error
+		run.Protect(func() { lerr = h.Root.ParseString(failing) })
+		if lerr == nil {
+			c.Count("expected_failure_was_accepted(left_to_C13)", 1)
+			continue
+		}
+		// is the selection reached at all (a null object, an empty list, a fragment that applies to no element)?
+		probe := Do(h, Request{Text: strings.Replace(cs.request, "zzbad: zzGhost", "zzprobe: __typename", 1), Entry: i}, nil)
+		reached := false
+		var walk func(v interface{})
+		walk = func(v interface{}) {
+			switch t := v.(type) {
+			case map[string]interface{}:
+				if _, has := t["zzprobe"]; has {
+					reached = true
+				}
+				for _, e := range t {
+					walk(e)
+				}
+			case []interface{}:
+				for _, e := range t {
+					walk(e)
+				}
+			}
+		}
+		walk(probe.Data)
+		if !reached {
+			c.Count("defect_not_reached_by_operation", 1)
+			continue
+		}
+		out := Do(h, Request{Text: cs.request, Entry: i}, nil)
+		done++
+		c.Eval("ghost|"+failing+"|"+cs.request+"|"+kind, true)
+		c.Bucket("defect", "field-of-a-failed-load")
+		c.Bucket("container", cs.container)
+		c.Bucket("backend", kind)
+		diag := ""
+		switch {
+		case out.Panic != nil:
+			diag = "panic"
+		case len(out.Msgs) == 0:
+			diag = "no error reported for a field the container type does not define"
+		case !strings.Contains(strings.Join(out.Msgs, "\n"), "zzGhost"):
+			diag = "no error message names the offender"
+		}
+		for _, cl := range out.Calls {
+			if cl.Key.Field == "zzGhost" {
+				diag = "the resolver was invoked for the undefined field"
+			}
+		}
+		if diag != "" {
+			c.Violation("c10-field-of-a-failed-load", map[string]interface{}{"backend": kind, "sdl": sdl, "failed_load": failing, "load_error": lerr.Error(), "document": cs.request, "diag": diag, "observed": out.Describe()})
 		}
 	}
 	return done
